@@ -177,6 +177,8 @@ pub fn run(tier: Tier) -> i32 {
         }
         // a hyphen glued in front of a unit (dash-bulleted lists)
         b.push(format!("-{}", c.unit));
+        // a word cut at a line end: the tens word with a trailing hyphen
+        b.push(format!("{}-", c.tens));
         let mut b2: Vec<String> = vec![];
         for w in b {
             if !b2.contains(&w) {
